@@ -1,7 +1,7 @@
 SPECIFICATION Spec
 CONSTANTS NPS = 4  MinDelay = 1  BurstMult = 4  BurstPkts = 2  MinSamples = 3  DefCwnd = 12  Mds0 = 3  Rtts <- RttQ
   BpsSet <- BpsA  MdsUp <- NoMds  Steps <- StepsA  Batches <- BatAB  MaxTime = 48  MaxSends = 0  MaxAcks = 3  MaxOps = 1000
-  CeilOn = TRUE  CapOn = TRUE  ConsumeOn = TRUE  ClampN = 4  ClampD = 5  StaleOn = TRUE  FloorOn = TRUE
+  CeilOn = TRUE  CapOn = TRUE  ConsumeOn = TRUE  StampOn = TRUE  ClampN = 4  ClampD = 5  StaleOn = TRUE  FloorOn = TRUE
 INVARIANT NoViolation
 VIEW View
 CHECK_DEADLOCK FALSE
